@@ -173,6 +173,15 @@ impl<R: Read, W: Write, M: Matcher> FrameCompressor<R, W, M> {
             self.hasher.write(&uncompressed_data);
             // Special handling is needed for compression of a totally empty file (why you'd want to do that, I don't know)
             if uncompressed_data.is_empty() {
+                vhit!(enc_blk_empty);
+                #[cfg(feature = "verif_hooks")]
+                crate::verif::enc_event(crate::verif::EncEvent::Block {
+                    block_type: 0,
+                    raw_fallback: false,
+                    last_block: true,
+                    input_size: 0,
+                    block_size: 0,
+                });
                 let header = BlockHeader {
                     last_block: true,
                     block_type: crate::blocks::block::BlockType::Raw,
@@ -187,6 +196,15 @@ impl<R: Read, W: Write, M: Matcher> FrameCompressor<R, W, M> {
 
             match self.compression_level {
                 CompressionLevel::Uncompressed => {
+                    vhit!(enc_blk_raw);
+                    #[cfg(feature = "verif_hooks")]
+                    crate::verif::enc_event(crate::verif::EncEvent::Block {
+                        block_type: 0,
+                        raw_fallback: false,
+                        last_block,
+                        input_size: read_bytes as u32,
+                        block_size: read_bytes as u32,
+                    });
                     let header = BlockHeader {
                         last_block,
                         block_type: crate::blocks::block::BlockType::Raw,
